@@ -448,7 +448,12 @@ class IndentationFeatures(object):
                 # find zeros
                 idcen = idmin + (idmax - idmin) // 2
                 smooth = ndimage.gaussian_filter1d(yin - fit, sigma=11)
-                idzero1 = idmin + np.argmin(np.abs(smooth[idmin:idcen]))
+                # (the first half is empty for an indentation part that
+                # consists of a single point)
+                if idcen > idmin:
+                    idzero1 = idmin + np.argmin(np.abs(smooth[idmin:idcen]))
+                else:
+                    idzero1 = idmin
                 idzero2 = idcen + np.argmin(np.abs(smooth[idcen:idmax]))
                 # change of sign in 1st, 2nd, and 3rd part of indentation
                 ydiffs = []
